@@ -30,7 +30,7 @@ def case_variants(m):
 
 
 def decorations(v):
-    return [v, v + '; charset=utf-8', '  ' + v + ' ', '\t' + v + '\t; x=y; z', v + ';', v + ' ;q="a;b"']
+    return [v, v + '; charset=utf-8', '  ' + v + ' ', '\t' + v + '\t; x=y; z', v + ';', v + ' ;q="a;b"', v + '; name="Report, final.pdf"', v + ';profile="a,b";x=","']
 
 
 def contents(tier):
